@@ -1,6 +1,7 @@
 P = dict(
     harness='c08_mockverdict.cpp',
-    variants=['asan'],
+    variants=['asan', 'memcheck'],
+    memcheck_stride=dict(quick=50, thorough=40),
     level='exploration',
     technique='runtime monitoring: multiset/first-deviation reference model over generated mock scenarios (expectation sets x actual call sequences) run inside fixture tests with the default reporter, MockSupportPlugin and a recording reporter, as the first test of a run or after 1..3 earlier (passing / failing) tests of the same run; '
               'unique return values / output bytes per (expectation, output parameter) identify the consumed expectation; ASan/UBSan build',
